@@ -5,6 +5,12 @@ HERE = os.path.dirname(os.path.dirname(os.path.abspath(__file__)))
 BASE = json.load(open('/root/.vp/BASELINE.json'))
 
 CHECKS = {
+ 'C04': dict(cat='exploration', sec='3/C04', technique='runtime monitoring: real TileManagers from the real loader driven against a pixel-unique NOISE upstream; recording proxy around the cache backend + upstream log; every produced/stored tile compared pixel-exactly (or within one pixel where a buffer is cut at the grid border) with the upstream picture',
+   text='Cache configurations are generated over meta_size (1x1..5x3), meta_buffer (0..200 on 32-128 px tiles, so buffers exceed tiles), minimize_meta_requests, bulk_meta_tiles, concurrent_tile_creators 1/2/4, WMS and tile sources, file/sqlite/compact backends, 3 SRS, 4 bbox classes, both origins, factor-2/sqrt2/free/explicit ladders; each is driven by single-tile, TMS, multi-tile batch and WMS GetMap requests aimed at grid corners and edges. The NOISE upstream gives every pixel of the pyramid a unique colour, so any wrong crop offset, row order, level or lost tile is a total mismatch. Judged: returned tiles, all stored tiles (sweep), one store group = all in-grid tiles of one meta tile, one upstream request per group (sequential creators). Exploration is the reachable level: the configuration space is a product of unbounded parameters.',
+   note='trusted: the NOISE function and lattice (taken from the loaded grid\'s bbox/resolutions/origin), PIL png codec. Pixels within one pixel of the grid border or outside it are not judged. Real threads (concurrent_tile_creators) are not schedule-controlled here (C08 does that).'),
+ 'C19': dict(cat='exploration', sec='3/C19', technique='runtime monitoring: store/overwrite/remove/bulk histories on the real compact caches with a structural invariant checked by an independent bundle parser at every quiescent point, a dict model, and before/after comparison around the real defragmentation',
+   text='Histories of 10-400 operations (store, overwrite, bulk store within and across bundles, remove) on CompactCacheV1/V2 over slots 0/127/128k/last and payloads 100 B-300 kB; after every operation an independent reader (vlib/bundle.py, no mapproxy import) parses every bundle and checks that each index entry is empty or points at a complete record inside the file with matching size, and that parser, dict model and cache API agree; the real defrag_compact_cache (and the CLI entry) runs 2-4 times per history with thresholds from never to always: every address must return identical bytes, no file may grow, no temporary file may remain.',
+   note='trusted: the independent parser, dict model. Single-threaded, no crashes (C06/C07 cover those). Header fields the statement does not mention are counted, not judged. Bundles with row/column >= 0x10000 are never matched by defrag (observed, not a violation).'),
  'C06': dict(cat='fault_enumeration', sec='3/C06', technique='runtime monitoring with crash-fault enumeration: the store runs in a forked child whose k-th raw file-system operation is replaced by process death (page-aligned torn writes included); a fresh reader in the parent judges every address against {previous, new, missing-if-allowed}',
    text='For file cache (plain, symlinked, hardlinked single-colour tiles), compact v1/v2 (single, bulk within and across bundles, overwrite, remove, index slots straddling a page), legend cache and seed progress file, with empty / populated / previously-crashed prior contents and 200 B-300 kB payloads, the real store executes in a child process under raw-I/O failpoints; the child is killed before every operation index 0..N (all in thorough; all non-write ops, all torn writes and a sample of plain writes in quick) and after a page-aligned prefix of every write crossing a 4096 boundary. After each crash a fresh cache object must return previous content, complete new content, or missing where the statement allows it, for batch and bystander addresses, and an ordinary store afterwards must succeed. This is enumeration of the crash points of the generated scenarios, not of all scenarios.',
    note='trusted: the failpoint layer (io.FileIO subclass under the normal buffered objects, wrapped os.* calls), fork/os._exit as a stand-in for SIGKILL. Crash model = process death only; torn writes only at page-aligned offsets. Known finding C06-compact-v1-index-entry-straddles-page is reported as KNOWN-FINDING.'),
